@@ -61,12 +61,12 @@ def nwk_tokens(s, ids):
     """tokens of a printed Newick string for the model: branch lengths, quotes and the final ';' removed, names -> numbers"""
     s = re.sub(r':[0-9.eE+-]+', '', s.strip().rstrip(';'))
     out = []
-    for m in re.finditer(r"\(|\)|,|'[^']*'|[^(),']+", s):
+    for m in re.finditer(r"\(|\)|,|'(?:[^']|'')*'|[^(),]+", s):
         tk = m.group(0)
         if tk in '(),':
             out.append(tk)
-        elif tk.startswith("'"):
-            out.append(str(ids[tk.strip("'")]))                 # quoted label: literal
+        elif tk.startswith("'") and tk.endswith("'") and len(tk) >= 2:
+            out.append(str(ids[tk[1:-1].replace("''", "'")]))  # quoted label: literal, a doubled apostrophe stands for one
         else:
             out.append(str(ids[tk.strip().replace('_', ' ')] if tk.strip().replace('_', ' ') in ids else ids[tk.strip()]))   # unquoted: `_` stands for a blank
     return out
@@ -113,6 +113,18 @@ def splits(t):
     return out
 
 
+def name_id(ids, x):
+    """id of a name as the scanner reports it: `_` may stand for a blank, apostrophes go with the quotes"""
+    if x in ids:
+        return ids[x]
+    if x.replace('_', ' ') in ids:
+        return ids[x.replace('_', ' ')]
+    for k in ids:
+        if isinstance(k, str) and k.replace("'", '') == x.replace("'", ''):
+            return ids[k]
+    raise KeyError(x)
+
+
 def py_split_elems(s, ids):
     """the harness's reading of what the scanner sees in a string: one element per comma"""
     out = []
@@ -121,6 +133,10 @@ def py_split_elems(s, ids):
         name = elem.replace('(', '').replace(')', '').split(':')[0].strip().replace("'", '')
         if name not in ids and name.replace('_', ' ') in ids:
             name = name.replace('_', ' ')          # the writer puts `_` for a blank
+        if name not in ids:
+            plain = [k for k in ids if isinstance(k, str) and k.replace("'", '') == name]     # an apostrophe inside a name goes with the quotes
+            if plain:
+                name = plain[0]
         if name not in ids:
             ids[name] = len(ids) + 1000      # unknown name (e.g. "D;") -> fresh id
         out.append('%d.%d.%d' % (o, ids[name], c))
@@ -176,6 +192,10 @@ def run(chk):
                 # taxon names of several words ('Old Norse'): written quoted or with the blank replaced - either way one taxon, one name
                 for i in rng.sample(range(k), rng.choice([1, 2])):
                     names[i] = 'Old N%d' % i
+            elif rng.random() < 0.15:
+                # an apostrophe in a name (Xi'an, Hawai'i): the writer quotes the label and doubles the apostrophe
+                for i in rng.sample(range(k), rng.choice([1, 2])):
+                    names[i] = "Xi'an%d" % i
             sa = newick(ta, names, lengths, rng)
             sb = newick(tb, names, lengths, rng)
             try:
@@ -253,7 +273,7 @@ def run(chk):
             ea, eb = py_split_elems(seenA, ids), py_split_elems(seenB, ids)
             try:
                 parts, lang = orig(seenA)
-                real_b = sorted(sorted(ids[x] if x in ids else ids[x.replace('_', ' ')] for x in p) for p in parts)
+                real_b = sorted(sorted(name_id(ids, x) for x in p) for p in parts)
             except Exception:
                 real_b = 'ERR'
             o = drv.ask('bipart|' + ' '.join(ea))
